@@ -213,7 +213,7 @@ prop(
     "C02",
     level="other",
     design_ref="DESIGN.md section 3, C02",
-    groups=[(_PIPE, r"^(\(\*stream\)\.(put|get|instantGet|commit|tryDetach|leave)|\(\*Pipeline\)\.finalize|\(\*processor\)\.(processEvent|processSequence|Propagate|doActions)|\(\*Batcher\)\.(Add|commitBatch))$")],
+    groups=[(_PIPE, r"^(\(\*stream\)\.(put|get|instantGet|commit|tryDetach|leave)|\(\*streamer\)\.getStream|\(\*Pipeline\)\.finalize|\(\*processor\)\.(processEvent|processSequence|Propagate|doActions)|\(\*Batcher\)\.(Add|commitBatch))$")],
     claim=(
         "Per-stream order mechanisms proved: stream.put hands out strictly increasing sequence ids in arrival order under the stream lock and appends at the tail; get takes the head (FIFO) and records it as the stream's away event; "
         "after hold/collapse the processor takes the next event from the same stream; Propagate re-injects a held event at the action after the one that held it before the triggering event continues; "
